@@ -349,7 +349,19 @@ impl Number {
             Number::Rational(num) => {
                 match (num.numer().checked_pow(exp), num.denom().checked_pow(exp)) {
                     (Some(numer), Some(denom)) => Rational32::new_raw(numer, denom).into(),
-                    _ => num.to_f64().unwrap_or(f64::NAN).powf(exp as f64).into(),
+                    // the exact power, rounded once: powf of the rounded base would be off by
+                    // about exp units in the last place
+                    _ => match exp.to_i32() {
+                        Some(exp) => BigRational::new_raw(
+                            BigInt::from(*num.numer()),
+                            BigInt::from(*num.denom()),
+                        )
+                        .pow(exp)
+                        .to_f64()
+                        .unwrap_or(f64::NAN)
+                        .into(),
+                        None => num.to_f64().unwrap_or(f64::NAN).powf(exp as f64).into(),
+                    },
                 }
             }
         }
